@@ -56,6 +56,10 @@ def judge(case, run, model_out):
         info["kind"] = "special-token-refused"
         ok = run.refused == "special-token"
         return (None if ok else ("spec:special-token-accepted", "the corpus contains <s>, </s> or <unk> and --skip_symbols is off; lmplz exit status %d" % run.rc), None, info)
+    if run.refused == "memory" and case.mem:
+        # the memory configuration itself is refused (documented: estimate or block minimum above -S): nothing was estimated
+        info["kind"] = "memory-config-refused"
+        return None, None, info
     ids, words = numbered
     clean = [[w for w in s if w > 2] for s in ids]
     allowed = None
@@ -95,6 +99,7 @@ def judge(case, run, model_out):
     except (ValueError, IndexError) as e:
         return (("spec:arpa-syntax", "the ARPA file does not parse: %s" % e), corr, info)
     info["ngrams"] = sum(len(o) for o in orders)
+    ren = kn.renumbering(words) if (case.renumber or case.intermediate) else None
     # ---- oracle against the file
     ofail = None
     msg = kn.compare_discounts(run.stats, oracle[2])
@@ -107,7 +112,7 @@ def judge(case, run, model_out):
         for k in range(1, case.order + 1):
             gs = kn.suffix_sorted(oracle[3][k].keys())
             exact.append([(g, oracle[3][k][g][0], oracle[3][k][g][1]) for g in gs])
-        msg = kn.compare_with_exact(orders, words, exact, check_order=not (case.renumber or case.intermediate), what="estimate")
+        msg = kn.compare_with_exact(orders, words, exact, what="estimate", ren=ren)
         if msg:
             cls = "line-order" if "line order" in msg else "ngram-set" if "sets differ" in msg or "not in the corpus" in msg else \
                 "backoff" if "back-off" in msg else "probability"
@@ -115,7 +120,7 @@ def judge(case, run, model_out):
     # ---- extracted model against the file
     if corr is None and model[0] == "built":
         msg = kn.compare_discounts(run.stats, model[2]) or (None if header == model[1] else "header counts %s, model %s" % (header, model[1])) or \
-            kn.compare_with_exact(orders, words, model[3], check_order=not (case.renumber or case.intermediate), what="model")
+            kn.compare_with_exact(orders, words, model[3], what="model", ren=ren)
         if msg:
             corr = ("correspondence:" + ("discounts" if "printed D" in msg else "arpa"), msg)
     if (ofail or corr) and borderline(clean, case, prune):
@@ -264,6 +269,16 @@ def run(ctx):
         ncomp, comp_bad = component_check(ctx, cases[:ctx.pick(400, 3000)], model)
     ctx.coverage["component_cases_adjust_counts"] = ncomp
     ctx.coverage["component_mismatches"] = len(comp_bad)
+    ctx.coverage["configuration_classes"] = {
+        "memory_one_block(-S 20M)": sum(1 for c in cases if not c.mem),
+        "memory_small(-S 64K..250K)": sum(1 for c in cases if c.mem and c.mem[1] in ("64K", "250K")),
+        "memory_tiny(-S 600b..8K: blocks of tens of records, multi-run merges)": sum(1 for c in cases if c.mem and c.mem[1] not in ("64K", "250K")),
+        "output_files_pre_existing": sum(1 for c in cases if c.stale),
+        "degenerate_corpus_without_words": sum(1 for c in cases if c.tag == "gen:degenerate"),
+        "renumbered(--renumber/--intermediate)": sum(1 for c in cases if c.renumber or c.intermediate),
+        "renumbered_with_word_sorting_before_<s>": sum(1 for c in cases if (c.renumber or c.intermediate) and
+                                                      any(kn.murmur64a(t) < kn.murmur64a(b"<s>") for t in set(c.data.split()) if t not in kn.SPECIALS)),
+        "interpolate_unigrams_0": sum(1 for c in cases if not c.interp)}
     ctx.count("evaluations", len(cases))
     ctx.coverage["distinct_nontrivial"] = len(nontrivial)
     ctx.coverage["rule"] = ("one evaluation = one lmplz run on a generated corpus (5-400 sentences, 1-60 word types, Zipf-like repetition, repeated "
